@@ -185,10 +185,13 @@ def deser_guard():
 
     V = importlib.import_module("vc2_conformance.bitstream.vc2")
 
-    saved = (V.transform_data, V.fragment_data)
+    # quant_matrix loops over dwt_depth(+ho) levels (and, when serialising with default values, never
+    # runs out of values), so it is guarded as well
+    saved = (V.transform_data, V.fragment_data, V.quant_matrix)
     try:
         V.transform_data = _deser_guarded(V.transform_data)
         V.fragment_data = _deser_guarded(V.fragment_data)
+        V.quant_matrix = _deser_guarded(V.quant_matrix)
         yield
     finally:
-        V.transform_data, V.fragment_data = saved
+        V.transform_data, V.fragment_data, V.quant_matrix = saved
